@@ -65,11 +65,28 @@ def euclid_angle(x, y):
     return math.degrees(math.acos(max(-1.0, min(1.0, c))))
 
 
+def trig_probe(ctx):
+    """cosd/sind are the cosine/sine of the angle in degrees, exactly at the multiples of 30 where the value is rational."""
+    from diffpy.structure.lattice import cosd, sind
+    exact = {0: 1.0, 60: 0.5, 90: 0.0, 120: -0.5, 180: -1.0, 240: -0.5, 270: 0.0, 300: 0.5}
+    exact_s = {0: 0.0, 30: 0.5, 90: 1.0, 150: 0.5, 180: 0.0, 210: -0.5, 270: -1.0, 330: -0.5}
+    angles = [30.0 * k for k in range(-24, 25)] + [ctx.rng.uniform(-720, 720) for _ in range(200)] + [1e-9, 59.999999, 60.000001, 89.9999999]
+    for x in angles:
+        for name, f, ref, tab in (("cosd", cosd, math.cos, exact), ("sind", sind, math.sin, exact_s)):
+            v = f(x)
+            want = tab.get(x % 360.0)
+            ctx.count(("trig", name))
+            if abs(v - ref(math.radians(x))) > 1e-12 or (want is not None and v != want):
+                ctx.violation("%s(%r) = %r is not the %s of the angle (%r)" % (name, x, v, "cosine" if name == "cosd" else "sine", want if want is not None else ref(math.radians(x))),
+                              {"function": name, "angle": x, "value": v}, key="trig:%s" % name)
+
+
 def finder(ctx, n):
     """The property text stated directly with plain Euclidean geometry on the live object."""
     from diffpy.structure.lattice import Lattice
     rng = ctx.rng
     tol = 1e-8
+    trig_probe(ctx)
     for i in range(n):
         kind = i % 5
         if kind == 4:
